@@ -194,14 +194,60 @@ def compose(p, q):
     return tuple(p[q[i]] for i in range(len(q)))
 
 
-def order(p):
-    """least k >= 1 with p^k = identity."""
+def order_naive(p):
+    """least k >= 1 with p^k = identity, by repeated composition."""
     ident = tuple(range(len(p)))
     k, power = 1, tuple(p)
     while power != ident:
         power = compose(p, power)
         k += 1
     return k
+
+
+def perm_power(p, k):
+    """p composed with itself k times (k >= 0), by repeated squaring - integers only."""
+    result = tuple(range(len(p)))
+    base = tuple(p)
+    while k:
+        if k & 1:
+            result = compose(result, base)
+        base = compose(base, base)
+        k >>= 1
+    return result
+
+
+_ORDER_MEMO = {}
+
+
+def order_long(p):
+    """Integer-only reference for long permutations whose order can be astronomically large: the
+    least common multiple of the orbit sizes (math.gcd on ints, exact floor division).  Checked
+    against the definition on the spot: p**k is the identity (always), and p**(k/q) is not the
+    identity for every prime q dividing k (lengths up to 130; every such q is <= len(p))."""
+    p = tuple(p)
+    k = _ORDER_MEMO.get(p)
+    if k is not None:
+        return k
+    k = 1
+    for orb in cycles(p):
+        m = len(orb)
+        k = (k * m) // math.gcd(k, m)
+    ident = tuple(range(len(p)))
+    assert perm_power(p, k) == ident, "reference order is not an exponent"
+    if len(p) <= 130:
+        for q in range(2, len(p) + 1):
+            if is_prime(q) and k % q == 0:
+                assert perm_power(p, k // q) != ident, "reference order is not minimal"
+    if len(_ORDER_MEMO) > 5000:
+        _ORDER_MEMO.clear()
+    _ORDER_MEMO[p] = k
+    return k
+
+
+def order(p):
+    """least k >= 1 with p^k = identity (definition by repeated composition up to length 12, the
+    verified integer lcm form beyond)."""
+    return order_naive(p) if len(p) <= 12 else order_long(p)
 
 
 def cycles(p):
@@ -553,6 +599,7 @@ def selftest(maxn=5):
                 assert longest_monotone_subsequence(p, asc) == \
                     longest_monotone_subsequence_naive(p, asc), p
             assert depth(p) == sum(p[i] - i for i in range(n) if p[i] > i)
+            assert order_long(p) == order_naive(p), p
             for asc in (True, False):
                 assert longest_runs_long(p, asc) == longest_runs(p, asc), p
             assert len(inversions(p)) + len(non_inversions(p)) == n * (n - 1) // 2
@@ -712,3 +759,50 @@ def longest_runs_long(p, ascending=True):
         ext.append(j - i + 1)
     best = max(ext)
     return (best, [i for i in range(n) if ext[i] >= best])
+
+
+# --------------------------------------------------------------------------------------------
+# value scale: statistics whose VALUE (not the input size) crosses 2**53 and 2**64.  Of the
+# statistics of this property only the order can: everything else is bounded by a polynomial in
+# the length (< n**4).  Direct sums of cycles of pairwise coprime lengths drive the order up.
+# --------------------------------------------------------------------------------------------
+
+FIRST_PRIMES = (2, 3, 5, 7, 11, 13, 17, 19, 23, 29, 31, 37, 41, 43, 47, 53, 59, 61)
+PRIME_POWERS = (4, 8, 9, 25, 27)
+
+
+def cycle_sum(lengths):
+    """direct sum of cycles: on each block of the given length, i -> i + 1 (mod length)."""
+    out, base = [], 0
+    for m in lengths:
+        out.extend(base + (i + 1) % m for i in range(m))
+        base += m
+    return tuple(out)
+
+
+def value_family(rmax=18):
+    """(label, perm): cycle sums with lengths the first r primes, r = 1..rmax; the same with one
+    prime power inserted (after its prime); and the reverse, complement and inverse of each."""
+    base = []
+    for r in range(1, rmax + 1):
+        primes = list(FIRST_PRIMES[:r])
+        base.append(("cycles %s" % primes, cycle_sum(primes)))
+        for pw in PRIME_POWERS:
+            lens = sorted(primes + [pw])
+            base.append(("cycles %s" % lens, cycle_sum(lens)))
+    out, seen = [], set()
+    for lab, p in base:
+        n = len(p)
+        for vlab, q in (("", p), (" reversed", p[::-1]), (" complemented", tuple(n - 1 - v for v in p)),
+                        (" inverted", inverse_of(p))):
+            if q not in seen:
+                seen.add(q)
+                out.append((lab + vlab, q))
+    return out
+
+
+def inverse_of(p):
+    q = [0] * len(p)
+    for i, v in enumerate(p):
+        q[v] = i
+    return tuple(q)
